@@ -716,6 +716,15 @@ func c32NameConflict(files []*c32File, B *c32Snap) bool {
 	return false
 }
 
+func c32OwnedByAssigned(f *c32File, assigned map[uint32]bool, except uint32) bool {
+	for _, e := range f.Ents {
+		if e.ID != except && assigned[e.ID] {
+			return true
+		}
+	}
+	return false
+}
+
 func c32AnyOld(files []*c32File, now time.Time) bool {
 	minAge := now.Add(-24 * time.Hour)
 	for _, f := range files {
@@ -782,6 +791,12 @@ func c32Judge(B, A *c32Snap, assigned map[uint32]bool, now time.Time, merging bo
 					}
 					add(fmt.Sprintf("assigned repo lost/compound shard %s/cause=%s/shardMerging=%v", fate, cause, merging),
 						"assigned repository %d (%s) was alive in %s before cleanup; afterwards that shard is %s", id, c32AnyName(B.namesIdx[id]), f.Base, fate)
+				case B.Trash[f.Base] != nil && B.Trash[f.Base].Hash != f.Hash && !B.Trash[f.Base].alive(id) && c32OwnedByAssigned(B.Trash[f.Base], assigned, id):
+					// Two ASSIGNED repositories own the same shard file name (shards are named
+					// after the repository name): the directory cannot hold both, so "keep the
+					// indexed one" and "restore the trashed one" cannot both be honoured. The
+					// property is not satisfiable for this input; it is not judged.
+					j.ev["assigned_sharing_a_shard_file_name_with_an_assigned_trashed_repo_not_judged"]++
 				case B.Trash[f.Base] != nil && B.Trash[f.Base].Hash != f.Hash && !B.Trash[f.Base].alive(id):
 					add("assigned repo lost/shard file name shared with a trash entry of another repository",
 						"assigned repository %d (%s): shard %s is %s after cleanup; .trash held a different shard with the same file name (%s)", id, c32AnyName(B.namesIdx[id]), f.Base, fate, B.Trash[f.Base].line(".trash", true))
